@@ -96,6 +96,9 @@ func genInstrBytes() *rapid.Generator[[]byte] {
 	return rapid.Custom(func(t *rapid.T) []byte {
 		var b []byte
 		np := rapid.IntRange(0, 3).Draw(t, "nprefix")
+		if rapid.IntRange(0, 7).Draw(t, "long-prefix-run") == 0 {
+			np = rapid.IntRange(4, 15).Draw(t, "nprefix-long") // prefix runs up to and beyond the decoder's prefix table (14 entries)
+		}
 		pf := []byte{0x66, 0x67, 0xf0, 0xf2, 0xf3, 0x2e, 0x36, 0x3e, 0x26, 0x64, 0x65}
 		for i := 0; i < np; i++ {
 			b = append(b, rapid.SampledFrom(pf).Draw(t, "prefix"))
